@@ -46,6 +46,7 @@ def run(ctx: Ctx, rep: Report) -> None:
     rep.rule("C05-R4", "SNMPv3 message, header, flags, scoped PDU and USM parameters follow RFC 3412 / 3414", floor=14)
     rep.rule("C05-R5", "API arguments reach the PDU fields (decided by C07-R1, C02-R3, C04-R1)", floor=1)
     rep.rule("C05-R6", "msgFlags state the credentials' security level and mark confirmed-class PDUs reportable (shared with C10-R1)", floor=10)
+    rep.rule("C05-R8", "the v3 security parameters emitted carry the discovered authoritative engine id, boots, time and the user name (shared with C10-R2)", floor=5)
     rep.rule("C05-R7", "the version spoken is that of the current credentials: a change of credential family installs the matching message-processing model (shared with C18-R4)", floor=4)
     rep.assumptions += [
         "x690 encodes the primitive types (INTEGER, OCTET STRING, OID, NULL), lengths and SEQUENCE framing correctly over their full ranges (numeric; not analysed here)",
@@ -274,9 +275,8 @@ def run(ctx: Ctx, rep: Report) -> None:
     rep.ok("C05-R5", ctx.send_method().site(), "request id, GETBULK counters and OIDs reach the PDU unchanged", "decided by C07-R1, C02-R3 and C04-R1")
     from . import c10, c18
 
-    sub = Report(rep.prop, rep.tier)
-    c10.run(ctx, sub)
+    sub = ctx.sub_run("c10", rep)
     rep.adopt_rules(sub, "C05-R6", ["C10-R1"])
-    sub = Report(rep.prop, rep.tier)
-    c18.run(ctx, sub)
+    rep.adopt_rules(sub, "C05-R8", ["C10-R2"])
+    sub = ctx.sub_run("c18", rep)
     rep.adopt_rules(sub, "C05-R7", ["C18-R4"])
